@@ -52,12 +52,20 @@ func mirrorSFlowDispatcher(ch chan SFUDPMsg) {
 	sFlowMirrorEnabled = true
 	logger.Printf("sflow mirror service is running (workers#: %d) ...", opts.SFlowMirrorWorkers)
 
+	// the workers all serve the address family of the mirror target
+	ipv4 := net.ParseIP(opts.SFlowMirrorAddr).To4() != nil
+
 	for {
 		msg = <-ch
-		if msg.raddr.IP.To4() != nil {
+		switch {
+		case ipv4 && msg.raddr.IP.To4() != nil:
 			ch4 <- msg
-		} else {
+		case !ipv4 && msg.raddr.IP.To4() == nil:
 			ch6 <- msg
+		default:
+			// an exporter of the other family: its address cannot be the source of
+			// a packet to this target, and nobody reads the other channel
+			sFlowBuffer.Put(msg.body[:opts.SFlowUDPSize])
 		}
 	}
 }
